@@ -8,7 +8,7 @@ package dnsforward
 //vx:native
 //vx:entry vxC02Response reach=replaced,delivered,allowlisted-name,protection-off,filtering-off,https-hint-blocked,aaaa-disabled
 //vx:stub (*github.com/AdguardTeam/dnsproxy/proxy.Proxy).Resolve vxC02Resolve
-//vx:note drives the real handleDNSRequest pipeline; upstream answer section of 0..2 records (thorough mode 2: exactly 3), each CNAME / A / AAAA / HTTPS (ipv4hint and ipv6hint lists of 0..2 addresses, either order) / TXT; for every name or address handed to the rule engines a fresh symbolic pair of verdicts (allow engine, block engine); protection, global/client filtering, allow-listing of the queried name: quick = the applicable case and each single reason for not applying; thorough = three slices of the full product: (0) all 32 combinations of the five switches with an A question and <=2 records, (1) the quick scenarios with AAAA and HTTPS questions and <=2 records, (2) the applicable case with an A question and exactly 3 records; AAAA-disabled symbolic; question type A in quick
+//vx:note drives the real handleDNSRequest pipeline; upstream answer section of 0..2 records (thorough mode 2: exactly 3), each CNAME / A / AAAA / HTTPS (ipv4hint and ipv6hint lists of 0..2 addresses, either order) / TXT; for every name or address handed to the rule engines a fresh symbolic pair of verdicts (allow engine, block engine); protection, global/client filtering, allow-listing of the queried name: quick = the applicable case and each single reason for not applying; thorough = four slices of the full product: (0) all 32 combinations of the five switches with an A question and <=2 records, (1) the quick scenarios with AAAA and HTTPS questions and <=2 records, (2) and (3) the applicable case with an A question and exactly 3 resp. 4 records of kind CNAME / A / AAAA; AAAA-disabled symbolic; question type A in quick
 //vx:note outside: rule syntax -> verdict (urlfilter); record payloads are distinct concrete constants (the verdicts are what is symbolic); blocking-mode response shapes (C01)
 
 import (
@@ -75,13 +75,13 @@ func vxC02Response() {
 	const qname = "name.example.org"
 	// ---- configuration ----
 	protOn, globalFiltering, clientOwn, clientFiltering, nameAllowed := true, true, false, false, false
-	// thorough = three slices of the full product (which is ~10^7 paths):
+	// thorough = four slices of the full product (which is ~10^7 paths):
 	// mode 0: every combination of the five switches, A question, <=2 records;
 	// mode 1: the quick scenarios, AAAA and HTTPS questions, <=2 records;
-	// mode 2: filtering applicable, A question, exactly 3 records.
+	// mode 2, 3: filtering applicable, A question, exactly 3 resp. 4 CNAME/A/AAAA records.
 	mode := -1
 	if vx.Thorough() {
-		mode = vx.Choice("mode", 3)
+		mode = vx.Choice("mode", 4)
 	}
 	if mode == 0 {
 		protOn = vx.Bool("protectionEnabled")
@@ -89,7 +89,7 @@ func vxC02Response() {
 		clientOwn = vx.Bool("clientUsesOwnSettings")
 		clientFiltering = vx.Bool("clientFiltering")
 		nameAllowed = vx.Bool("queriedNameAllowlisted")
-	} else if mode == 2 {
+	} else if mode >= 2 {
 		// the applicable case only
 	} else {
 		// quick: the applicable case and each single reason for not applying
@@ -127,7 +127,9 @@ func vxC02Response() {
 
 	// ---- upstream answer ----
 	n := 3
-	if mode != 2 {
+	if mode == 3 {
+		n = 4
+	} else if mode != 2 {
 		n = vx.Choice("nrecords", 3)
 	}
 	var answer []dns.RR
@@ -136,7 +138,13 @@ func vxC02Response() {
 		return dns.RR_Header{Name: qname + ".", Rrtype: t, Class: dns.ClassINET, Ttl: 60}
 	}
 	for i := 0; i < n; i++ {
-		switch vx.Choice("kind", 5) {
+		kinds := 5
+		if mode >= 2 {
+			// three or four records: CNAME / A / AAAA only (HTTPS hint lists and TXT are
+			// covered with <=2 records; the full product exceeds 2*10^6 paths)
+			kinds = 3
+		}
+		switch vx.Choice("kind", kinds) {
 		case 0:
 			t := "c" + string(rune('0'+i)) + ".cdn.example."
 			answer = append(answer, &dns.CNAME{Hdr: hdr(dns.TypeCNAME), Target: t})
